@@ -11,6 +11,7 @@ import Penguin.Lemmas.MuxBasic
 import Penguin.Lemmas.MuxStep
 import Penguin.Lemmas.PairCor
 import Penguin.Lemmas.MuxLeakDrop
+import Penguin.Lemmas.PairHarness
 
 namespace Penguin.C06
 open Penguin Penguin.Mux
@@ -249,6 +250,19 @@ theorem pair_released_write_fails_rev {oa ob : Opts} {ra rb : List Nat} (c : Cfg
     (appWrite p.b hd d).2 = .brokenPipe ∧ (appWrite p.b hd d).1.outq = p.b.outq :=
   released_write_fails (p := (Pair.run (Pair.init oa ob ra rb) as).swap) (reach_inv c as).swap hx hrel hd j o d hh hf
 
+open Penguin.Mux Penguin.Pair in
+/-- The harness's `dropmany` stimulus (several streams of one endpoint dropped back to back before its
+    task runs, then the task runs to quiescence — `Mux.applyDropMany`, what the driver executes) applied
+    to any reachable state of the pair is a run of the fine-grained actions, so the pair invariant —
+    and with it every `pair_*` theorem — holds afterwards: the task's notification loop handles a burst
+    of drops like the same drops one at a time. -/
+theorem pair_burst_of_drops_is_a_run {oa ob : Opts} {ra rb : List Nat} (c : Cfg oa ob ra rb) (as : List (Pair.Side × Pair.Act))
+    (q : PS) (hs : List Nat) (hen : runL (Pair.run (Pair.init oa ob ra rb) as) (hs.map Pair.Act.dropStream) = some q)
+    (hidle : Idle q.a) (hsr : q.a.sinkRoom = none) (hr : (settle q.a).1.rng ≠ []) :
+    let p := Pair.run (Pair.init oa ob ra rb) as
+    Pair.Inv { q with a := (applyDropMany p.a hs).1, ab := p.ab ++ wiresOf (applyDropMany p.a hs).2.2 } :=
+  dropMany_inv _ q (reach_inv c as) hs hen hidle hsr hr
+
 /-! Non-vacuity of the pair theorems: a run (windows 2, threshold 1) that opens a stream, writes
     three bytes (two fit the window), and then drops the stream without shutting it down; the peer
     processes the `Push` and the `Reset`, reads the two bytes and then end-of-stream, and its own
@@ -265,6 +279,14 @@ example : Mux.lookup (Pair.run (Pair.init pcfg pcfg [7, 8] [9, 10]) pacts).b.flo
 example : (Pair.run (Pair.init pcfg pcfg [7, 8] [9, 10]) pacts).gb.eof 0 = true ∧
     (Pair.run (Pair.init pcfg pcfg [7, 8] [9, 10]) pacts).gb.rlog 0 = [1, 2] := by decide
 example : (Mux.appWrite (Pair.run (Pair.init pcfg pcfg [7, 8] [9, 10]) pacts).b 0 [5]).2 = .brokenPipe := by decide
+
+/-! Non-vacuity of `pair_burst_of_drops_is_a_run`: two streams opened by `a`, both dropped at once. -/
+private def pacts2 : List (Pair.Side × Pair.Act) :=
+  [(.A, .open 1 [104] 80), (.A, .xmit), (.B, .recv), (.B, .xmit), (.A, .recv), (.A, .runDone),
+   (.A, .open 2 [105] 81), (.A, .xmit), (.B, .recv), (.B, .xmit), (.A, .recv), (.A, .runDone)]
+example : ((Pair.runL (Pair.run (Pair.init pcfg pcfg [7, 8, 11] [9, 10]) pacts2) [.dropStream 0, .dropStream 1]).map
+    (fun q => (q.a.droppedq, q.a.inbox.length, q.a.dead, q.a.muxAlive, q.a.sinkRoom.isNone, (Mux.settle q.a).1.rng))) =
+    some ([7, 8], 0, false, true, true, [11]) := by decide
 
 /-! Non-vacuity -/
 example : (closeFlow { opts := {}, flows := [(5, .established 0)],
